@@ -11,7 +11,10 @@ RULE = ("for every public constructor and add_required_resource: the product of 
         "resources; plain vs cumulative resources; with and without an active problem), each tuple in a fresh problem built through "
         "the public API; reference predicate transcribed from the property statement: must-reject (the listed ill-formed cases), "
         "must-accept (documented legal values incl. every legal boundary; accepted = object returned AND the problem still "
-        "initialises), everything else UNSPEC and only counted; non-trivial = tuples with a reject/accept expectation")
+        "initialises), everything else UNSPEC and only counted; every rejected single-element case is followed, in the same problem, by its "
+        "well-formed variant under the same name (a rejected attempt leaves nothing behind); every program of the alphabets of "
+        "C01-C04, C06-C11 and C19 - well-formed by construction - must build and initialise; non-trivial = tuples with a "
+        "reject/accept expectation")
 ASSUME = ["the must-reject / must-accept predicate is the list in the property statement plus the field documentation",
           "'no problem exists' is produced by clearing the module-level active problem"]
 
@@ -309,15 +312,22 @@ def accept_job(j):
 
 
 def alphabet_programs(tier):
-    from . import C02, C03, C04, C09, C10
+    from . import C01, C02, C03, C04, C06, C07, C08, C09, C10, C11, C19
 
     seen, out = set(), []
-    for mod, name in ((C02, "C02"), (C03, "C03"), (C04, "C04"), (C09, "C09"), (C10, "C10")):
-        for j in mod.jobs(common.level(name, tier))[:: (3 if tier == "quick" else 1)]:
+    stride = {"C01": 5, "C06": 3, "C11": 2, "C19": 4}
+    for mod, name in ((C02, "C02"), (C03, "C03"), (C04, "C04"), (C09, "C09"), (C10, "C10"), (C01, "C01"), (C06, "C06"), (C08, "C08"), (C11, "C11"),
+                      (C19, "C19")):
+        for j in mod.jobs(common.level(name, tier))[:: (stride.get(name, 3) if tier == "quick" else 1)]:
             k = dsl.pkey(j["program"])
             if k not in seen:
                 seen.add(k)
                 out.append({"program": j["program"], "family": name + ":" + j.get("family", "")})
+    for (lab, p_) in C07.programs(tier):
+        k = dsl.pkey(p_)
+        if k not in seen:
+            seen.add(k)
+            out.append({"program": p_, "family": "C07:" + lab})
     return out
 
 
